@@ -211,7 +211,19 @@ def handle (j : Json) : Except String Json := do
     let base : List (String × Json) :=
       [("build", Json.null), ("n_ops", toJson ops.length),
        ("out", Json.arr (r.out.map valJson).toArray)] ++ errJsons r.err ++
-      [("logs", logsOf r.logs), ("closed", toJson r.closed)]
+      [("logs", logsOf r.logs), ("closed", toJson r.closed)] ++
+      -- the caller who goes on after the first error (`Impl.runPost`, theorem C12_first_error_is_final)
+      (match Impl.runPost ignore ops src ((j.getObjValAs? Nat "post_next").toOption.getD 2) with
+       | none => [("post", Json.null)]
+       | some p =>
+         let call : Option (Ev Val) → Json
+           | none => "stop"
+           | some (.ok _) => "value"
+           | some (.error e) => Json.str ("raise:" ++ e.kind.name)
+         [("post", Json.mkObj [
+            ("calls", Json.arr (p.calls.map call).toArray),
+            ("delivered", Json.arr ((p.calls.filterMap fun c => match c with | some (.ok v) => some (valJson v) | _ => none)).toArray),
+            ("closed_at_error", toJson p.closedAtError), ("closed_after", toJson p.closedAfter)])])
     let unbatched := ops.all fun op => op.fnBatch == 0 && op.batch == 0
     let refPart : List (String × Json) :=
       if unbatched then
